@@ -363,6 +363,26 @@ def gl5(prog):
                 errs.append("line %d: hashed operand is not one field of the ite: %s" % (cs.line, show(a)))
             else:
                 fed.append(names.pop())
+    if not fed:
+        # fold form: [f, g, h].into_iter().fold(Hasher::default(), |mut st, x| { x.hash(&mut st); st }).finish()
+        for x in mir.subterms(te.ret):
+            if mir.is_call(x, "finish") and x[2] and mir.is_call(strip(x[2][0]), "fold") and len(strip(x[2][0])[2]) == 3:
+                src, init, clo = [strip(a) for a in strip(x[2][0])[2]]
+                while mir.is_call(src, "into_iter") or mir.is_call(src, "iter"):
+                    src = strip(src[2][0])
+                cf = [g for g in prog.lib_fns if isinstance(clo, tuple) and clo and clo[0] == "agg" and clo[1] == "closure" and g.npath == clo[2]]
+                feeds_elem = len(cf) == 1 and any(c.callee.name == "hash" and strip(c.args[0]) == ("param", 3) for c in cf[0].terms.calls) \
+                    and not any(c.callee.name == "hash" and strip(c.args[0]) != ("param", 3) for c in cf[0].terms.calls)
+                if src[0] == "agg" and src[1] == "array" and mir.is_call(init, "default") and feeds_elem:
+                    for el in src[4]:
+                        names = {y[2] for y in mir.subterms(el) if y[0] == "field" and isinstance(y[1], tuple) and y[1][0] == "as" and y[1][1] == ("param", 2)}
+                        if any(y == ("param", 1) for y in mir.subterms(el)):
+                            errs.append("table state flows into the key hash")
+                        if len(names) == 1:
+                            fed.append(names.pop())
+                        else:
+                            errs.append("hashed operand is not one field of the ite: %s" % show(el)[:50])
+                    errs = [e for e in errs if not e.startswith("?expected one finish")]
     if sorted(fed) != ["f", "g", "h"]:
         # nothing fed in the body itself: the feeding happens in a closure / fold the rule does not read
         errs.append("%shash feeds %s, expected exactly f, g, h" % ("?" if not fed else "", fed))
